@@ -158,8 +158,11 @@ def replay_case(prop, case, token):
 
 
 def match_known(known, prop, sig):
+    import re
     for k in known.get('findings', []):
         if k['property'] == prop and k['signature'] == sig:
+            return k
+        if k['property'] == prop and k.get('pattern') and re.fullmatch(k['pattern'], str(sig)):
             return k
     # a minimised case that still carries several named triggers (archsim: "<prop>|<family>|t1+t2") is a known
     # finding when every one of its triggers is one on its own
